@@ -286,6 +286,21 @@ def e2e(w, res, r, scratch, args_tier="quick"):
                     after("caller-with-multibyte-cmdline(%s)" % ("denied" if dest == "imds" else "allowed"), "w%d-d%d-b%d" % (len(ch.encode()), delta, base),
                           {"cmdline_bytes": len(ident.cmdline.encode()), "char_width": len(ch.encode()), "delta": delta, "base": base, "dest": dest, "status": st, "user": ident.user}, got)
     w.rules("imds", None)
+    # callers the agent can learn little about: a process that has exited and is not reaped yet (its socket lives on, e.g. inherited),
+    # and a pid that does not exist - the request must still be answered, nothing may panic
+    import subprocess as _sp
+    zs = []
+    for k in range(6):
+        z = _sp.Popen([wproxy.HELPER_BIN], stdin=_sp.PIPE, stdout=_sp.DEVNULL, user=1001 if k % 2 else 0, group=1001 if k % 2 else 0, extra_groups=[])
+        z.kill(); zs.append(z)      # never waited for: a zombie for as long as the handle is held
+        time.sleep(0.03)
+        for dest in ("imds", "other"):
+            c = w.open(dest, root, pid=z.pid, uid=1001 if k % 2 else 0, timeout=60)
+            got = talk(c, rawhttp.build_request("GET", "/z?k=%d" % k, [("x-vf-id", "zombie-%d-%s" % (k, dest))]))
+            c.close()
+            bump("e2e:zombie-caller:%s" % dest)
+            res["nontrivial"].append("e2e-zombie:%d:%s" % (k, dest))
+            after("caller-is-a-zombie-process", "k%d-%s" % (k % 2, dest), {"pid": z.pid, "dest": dest}, got)
 
 
 def background_tasks(args, scratch):
